@@ -285,8 +285,11 @@ def accept_rule(ctx, facts, cfg, pol):
         ok = ok and last.get('callee') == 'increment_offset' and last.get('arg-rdlen') == (0, 0)
         ends = last.get('end-offset-rdlen') or []
         ok = ok and (-fixed_after, -fixed_after) in ends
-        ok = ok and last.get('rdlen', (None,))[0] is not None and last['rdlen'][0] >= min_rdlen
-        fact(label, ok, '%s arm: %s' % (arm, [{k: v for k, v in e.items() if k != 'at'} for e in s]), PRR, s[0]['at'] if s else rf['at'])
+        # the smallest data length that reaches the end of the arm is exactly the smallest legal one: larger = a legal record is
+        # turned away, smaller = the arm can run with less data than its fixed parts need
+        lo_seen = last.get('rdlen', (None,))[0]
+        ok = ok and lo_seen is not None and lo_seen == min_rdlen
+        fact(label, ok, '%s arm (smallest accepted data length %s, legal minimum %d): %s' % (arm, lo_seen, min_rdlen, [{k: v for k, v in e.items() if k != 'at'} for e in s]), PRR, s[0]['at'] if s else rf['at'])
 
     name_arm('NS|CNAME|PTR', 'name data filled exactly (NS/CNAME/PTR)', 'check_compressed_name', 0, 0, 1)
     name_arm('MX', 'MX: preference then name, filled exactly', 'check_compressed_name', pol['mx_name_at'], 0, 3)
